@@ -44,6 +44,16 @@ def check_rebuild(rec: Rec, cc, bban):
     o, g = oracle(), gen()
     text = g.iban_of(cc, bban)
     inp = {"cc": cc, "bban": bban}
+    if cc == "DE":
+        # German national validity depends on the bank: a random bank code is almost always unlisted (accepted); when it does
+        # hit a listed bank, the account has to satisfy that bank's method to be a nationally valid base (precondition of (b))
+        from ..oracles import de as ode
+        from .c07 import state as de_state
+        es = de_state()["idx"].get(("DE", bban[:8]))
+        m = es[0].get("checksum_algo") if es else None
+        if m is not None and (m not in ode.METHODS or ode.ref(m, bban[8:]) is not True):
+            rec.excluded["German base hit a listed bank whose method rejects (or is undecided about) the account: not a nationally valid base"] += 1
+            return
     try:
         iban = IBAN(text, validate_bban=True)
         comps = {k: getattr(iban, k) for k in COMPONENTS}
@@ -196,8 +206,6 @@ def shard_rebuild(arg):
         b = g.natvalid_bban(cc, rng, "random" if k % 3 else "letters")
         if b is None:
             raise HarnessError(f"no nationally valid BBAN for {cc}")
-        if cc == "DE":
-            pass  # German national validity depends on the bank; unlisted random bank codes are accepted
         check_rebuild(rec, cc, b)
         rec.case("rebuild-rich" if rich else "rebuild", (cc, b) if rich else None, {"cc": cc, "bban": b} if k == 0 else None)
     return rec
